@@ -33,7 +33,7 @@ def file_stubs(E, contents_fn):
     def read(E_, st, a):
         name, data, pos, fail = get(st, a[0]); n = E_.use(st, a[2], 'istream::read length')
         if not is_c(n): raise Unsupported("istream::read with symbolic length")
-        if fail: return a[0]
+        if fail or n == 0: return a[0]
         avail = max(0, min(n, len(data) - pos))
         dst = a[1]
         o = E_.getobj(st, dst.obj)
